@@ -753,7 +753,7 @@ class RecurrencePlot(Cached):
             recurrence rate.
         """
         #  Get number of distances to be randomly chosen
-        n_samples = int(rr_precision * distance.size)
+        n_samples = max(1, int(rr_precision * distance.size))
 
         #  Get number of phase space points
         n_time = distance.shape[0]
@@ -765,7 +765,8 @@ class RecurrencePlot(Cached):
 
         #  Sort and get threshold
         samples.sort()
-        threshold = samples[int(recurrence_rate * n_samples)]
+        threshold = samples[min(int(recurrence_rate * n_samples),
+                                n_samples - 1)]
         return threshold
 
     @staticmethod
